@@ -134,6 +134,30 @@ struct Host : SPxBasisBase<R>
 #include "setTerminationIter.inc"
    }
 #endif
+#ifdef INST_GATE
+   /* The region of solve() between the pricing step and the pivot: from the comment "check if we have iterations left" up to, not
+    * including, `enter(enterId);` resp. `leave(leaveNum);`, verbatim.  In the tree it sits in the simplex loop and leaves it with
+    * `break`; here it sits in a switch, so `break` means "the pivot is not reached" (gate() returns 0) and falling through means
+    * "the pivot is next" (gate() returns 1). */
+   const Host& basis() const { return *(Host*)this; }
+   int iterations() const
+   {
+#include "iterations.inc"
+   }
+   bool stop;
+   int gate(volatile bool* interrupt)
+   {
+      switch(0)
+      {
+      default:
+      {
+#include SLICE
+         return 1;
+      }
+      }
+      return 0;
+   }
+#endif
 };
 
 #ifdef INST_TERMINATE
@@ -190,5 +214,17 @@ extern "C" int w_setiter(int p_iteration)
    Host h; h.maxIters = 0;
    h.body(p_iteration);
    return h.maxIters;
+}
+#endif
+
+#ifdef INST_GATE
+extern "C" int w_gate(int maxIters, int iterCount, int haveInterrupt, int flag, int* m_status, int* stop)
+{
+   VIN("maxIters", maxIters); VIN("iterCount", iterCount); VIN("haveInterrupt", haveInterrupt); VIN("flag", flag); VIN("m_status", *m_status);
+   Host h; volatile bool f = flag != 0;
+   h.maxIters = maxIters; h.iterCount = iterCount; h.m_status = (Host::Status)(*m_status); h.stop = *stop != 0;
+   int reached = h.gate(haveInterrupt ? &f : (volatile bool*)0);
+   *m_status = (int)h.m_status; *stop = h.stop;
+   return reached;
 }
 #endif
